@@ -35,7 +35,8 @@ def jobs_for(tier):
     if tier == "thorough":
         # n = 4: every pattern for the substitution-based kinds, sharded over the number of off-diagonal entries
         for lo, hi in ((0, 4), (5, 5), (6, 6), (7, 7), (8, 12)):
-            j.append(("n=4 tri %d..%d" % (lo, hi), cfg_text([4], ["sor", "ssor", "ilu"], [1, 2], lo, hi, 0)))
+            j.append(("n=4 tri %d..%d" % (lo, hi), cfg_text([4], ["sor", "ssor", "ilu"], [1], lo, hi, 0)))
+        j.append(("n=4 ilu pal2", cfg_text([4], ["ilu"], [2], 0, 5, 0)))
         j.append(("n=4 other", cfg_text([4], ["jacobi", "poly", "scale", "diagonal", "matrix"], [1], 0, 4, 1)))
         j.append(("histories n=2", cfg_text([2], ALL, [1, 2], 0, 2, 0, "hist", 6)))
         j.append(("histories n=3", cfg_text([3], ["sor", "ssor", "ilu", "poly", "jacobi"], [1], 3, 3, 0, "hist", 5)))
